@@ -17,6 +17,7 @@ import XotModel.Driver.Html5
 import XotModel.Driver.Fmap
 import XotModel.Driver.Parse
 import XotModel.Driver.Fclone
+import XotModel.Driver.Repair
 
 open XotModel.Driver
 
@@ -32,6 +33,7 @@ def dispatch (st : DState) (line : String) : DState × String :=
   | "scope" :: rest => (st, (handleScope st rest).getD "bad-request")
   | "html" :: rest => (st, (handleHtml st rest).getD "bad-request")
   | "build" :: rest => (st, (handleBuild st rest).getD "bad-request")
+  | "repair" :: rest => (st, (handleRepair st rest).getD "bad-request")
   | _ => (st, "bad-request")
 
 structure MState where
